@@ -1,24 +1,27 @@
 (* C06 - The canvas cache is invisible: cached rendering equals fresh rendering.
-   Only statements here; every proof is [exact <lemma>] into Proofs/CacheProofs.v.
+   Only statements here; every proof is [exact <lemma>] into Proofs/CacheGC.v.
 
    The model (Model/Cache.v) mirrors CanvasCache.store/fetch/invalidate/cleanup/clear and the
    render/rows wrappers of urwid/widget/widget.py line by line.  What a widget renders is NOT
    modelled: [body] is an arbitrary program over the widget's own version and the render key that
    may ask for renders of other widgets and go on with what they returned.  The theorems hold for
-   every such [body], every history of Render / Rows / Mutate / Collect / Clear, every fuel.
+   every such [body], every history of Render / Rows / Mutate / Collect / Clear, every fuel, and
+   [Collect] may free ANY live canvas at any time: since CanvasCache.cleanup invalidates the
+   dependants of a widget whose last canvas went away, nothing is assumed about which canvases a
+   canvas keeps alive (the former premise "a canvas holds the canvases it displays" is gone).
 
    Hypotheses about the widgets (premises of the theorems, tied to the code by the oracle and the
    AST scan of harness/props/c06.py):
      (H1) built into the shape of [prog]: a canvas is a function of the widget's own version, the key
-          and the canvases of the children it asked for - and it keeps those canvases as children
-          (so depends_on = the widgets it displays, and the collector cannot free a displayed child);
+          and the canvases of the children it asked for, and those children are what it registers as
+          depends_on (explicitly or through its children list);
      (H2) built into [Mutate]: every change of a widget's own state goes with self._invalidate();
      (H3) [ranked]: the widget graph is acyclic;
      (H4) [all_cacheable]: every canvas has cacheable = True and no class lists "render" in no_cache.
    Without (H4) the statement is FALSE of the code: [cache_invisible_full_refuted] below. *)
 From Coq Require Import ZArith List Bool Lia.
 Import ListNotations.
-From Urwid Require Import PyBase Cache CacheFacts CacheProofs CacheWitness.
+From Urwid Require Import PyBase Cache CacheFacts CacheProofs CacheGC CacheWitness c06_mutators_gen CacheMutators.
 Open Scope Z_scope.
 
 Section C06.
@@ -43,15 +46,17 @@ Section C06.
     forall n ops, let st := run n init ops in
     forall cv, cached C st cv ->
     forall m x, fresh (ver st) m (c_w cv) (c_k cv) = Some x -> c_content cv = x.
-  Proof. exact (fresh_invariant_lemma C body rbody rows_of cacheable rcache rank). Qed.
+  Proof. exact (gc_fresh_invariant C body rbody rows_of cacheable rcache rank). Qed.
 
-  (* --- the invariant "DepsComplete": a cached canvas of w holds exactly the canvases its render
-         body asks for now; each of them is still cached and has w in its _deps list --- *)
+  (* --- the invariant "DepsComplete": the render trace recorded for a cached canvas is linked all the way
+         down ([Lk]): every canvas on it - alive or already collected, found in a ghost list G of all canvases
+         ever created - has the content of a cache-less render now, and every widget on it lists the widget
+         that displays it in its _deps list --- *)
   Theorem deps_complete : ranked -> all_cacheable ->
     forall n ops, let st := run n init ops in
-    forall cv, cached C st cv ->
-    trace C st (c_w cv) (c_children cv) (body (c_w cv) (version (ver st) (c_w cv)) (c_k cv)).
-  Proof. exact (deps_complete_lemma C body rbody rows_of cacheable rcache rank). Qed.
+    exists G, (forall cv, In cv (heap st) -> In cv G) /\
+              forall cv, cached C st cv -> Lk C body (cc st) (ver st) G cv.
+  Proof. exact (gc_deps_complete C body rbody rows_of cacheable rcache rank). Qed.
 
   (* --- clause 1: after any history, rendering with the cache = rendering with the cache emptied first
          (content includes the cursor) --- *)
@@ -61,18 +66,18 @@ Section C06.
     crender m1 st w k = Some (cv, st1) ->
     crender m2 (cleared st) w k = Some (cv', st2) ->
     c_content cv = c_content cv'.
-  Proof. exact (cache_invisible_lemma C body rbody rows_of cacheable rcache rank). Qed.
+  Proof. exact (gc_cache_invisible C body rbody rows_of cacheable rcache rank). Qed.
 
   Theorem cached_render_equals_cacheless_render : ranked -> all_cacheable ->
     forall n ops m m' w k cv st1 x,
     let st := run n init ops in
     crender m st w k = Some (cv, st1) -> fresh (ver st) m' w k = Some x -> c_content cv = x.
-  Proof. exact (render_equals_fresh_lemma C body rbody rows_of cacheable rcache rank). Qed.
+  Proof. exact (gc_render_equals_fresh C body rbody rows_of cacheable rcache rank). Qed.
 
   (* neither side is vacuous: fuel above the rank of the widget always suffices *)
   Theorem render_never_out_of_fuel : ranked -> all_cacheable ->
     forall n ops m w k, (rank w < m)%nat -> exists cv st', crender m (run n init ops) w k = Some (cv, st').
-  Proof. exact (render_total_lemma C body rbody rows_of cacheable rcache rank). Qed.
+  Proof. exact (gc_render_total C body rbody rows_of cacheable rcache rank). Qed.
 
   Theorem cacheless_render_never_out_of_fuel : ranked ->
     forall vr m w k, (rank w < m)%nat -> exists x, fresh vr m w k = Some x.
@@ -84,12 +89,19 @@ Section C06.
     forall n ops d v, let st := run n init (ops ++ [Mutate d v]) in
     version (ver st) d = v /\
     forall m m' w k cv st1 x, crender m st w k = Some (cv, st1) -> fresh (ver st) m' w k = Some x -> c_content cv = x.
-  Proof. exact (change_visible_lemma C body rbody rows_of cacheable rcache rank). Qed.
+  Proof. exact (gc_change_visible C body rbody rows_of cacheable rcache rank). Qed.
 
   (* the recursion of CanvasCache.invalidate terminates within the fuel [step] gives it *)
   Theorem invalidate_never_out_of_fuel :
     forall n (st : state C) w v, snd (step C body rbody rows_of cacheable rcache n st (Mutate w v)) = ODone C.
   Proof. exact (mutate_fuel_lemma C body rbody rows_of cacheable rcache). Qed.
+
+  (* the loop over the popped dependants in CanvasCache.cleanup terminates within its fuel as well *)
+  Theorem cleanup_never_out_of_fuel :
+    forall (c : cache) (r : cid), exists c2,
+      invalidate_all (S (length (deps (cleanup_entry c r)))) (cleanup_popped c r) (cleanup_entry c r) = Some c2 /\
+      cleanup c r = c2.
+  Proof. exact cleanup_total. Qed.
 
   (* --- clause 3: rows() answered through the cache = rows() computed without any cache, provided the
          widgets themselves are consistent (rows() = render().rows(), which is property C11) --- *)
@@ -99,14 +111,14 @@ Section C06.
   Theorem rows_from_cache_ok : ranked -> all_cacheable -> rows_consistent ->
     forall n ops m m' w k r r', let st := run n init ops in
     crows C rbody rows_of rcache m st w k = Some r -> frows rbody (ver st) m' w k = Some r' -> r = r'.
-  Proof. exact (rows_ok_lemma C body rbody rows_of cacheable rcache rank). Qed.
+  Proof. exact (gc_rows_ok C body rbody rows_of cacheable rcache rank). Qed.
 
   (* --- clause 4: canvases are never modified after they were handed out: whatever happens later, a
          canvas that is still alive is the very record that was created under its identity --- *)
   Theorem finalized_never_mutated : ranked -> all_cacheable ->
     forall n ops1 ops2 cv cv', let st := run n init ops1 in
     In cv (heap st) -> In cv' (heap (run n st ops2)) -> c_id cv' = c_id cv -> cv' = cv.
-  Proof. exact (never_mutated_history C body rbody rows_of cacheable rcache rank). Qed.
+  Proof. exact (gc_never_mutated C body rbody rows_of cacheable rcache rank). Qed.
 End C06.
 
 Print Assumptions fresh_invariant.
@@ -117,8 +129,28 @@ Print Assumptions render_never_out_of_fuel.
 Print Assumptions cacheless_render_never_out_of_fuel.
 Print Assumptions change_visible.
 Print Assumptions invalidate_never_out_of_fuel.
+Print Assumptions cleanup_never_out_of_fuel.
 Print Assumptions rows_from_cache_ok.
 Print Assumptions finalized_never_mutated.
+
+(* ===== (H2) as a checked obligation =====
+   [mutators] is regenerated from the widget sources on every run (Gen/c06_mutators_gen.v, tools/py2v/mods/c06_mutators.py):
+   every public method or property setter of the bundled widget classes that assigns to an attribute of self, with
+   a flag whether it (transitively, syntactically) reaches self._invalidate() / a contents-list callback.  Each one
+   reaches it, or is on the commented exemption list of Proofs/CacheMutators.v.  A public mutator added or changed so that
+   it no longer invalidates breaks this theorem.  (Input handlers - keypress, mouse_event - and what a mutator does
+   at run time are covered by the oracle histories, not by this syntactic obligation.) *)
+Theorem every_public_mutator_reaches_invalidate :
+  forall c n s r, In (c, n, s, r) mutators -> r = true \/ In (c, n) exempt.
+Proof. exact every_mutator_invalidates_lemma. Qed.
+Print Assumptions every_public_mutator_reaches_invalidate.
+
+Example exemptions_all_used :
+  forallb (fun e => existsb (fun r => let '(c, n, _, reaches) := r in zs_eqb c (fst e) && zs_eqb n (snd e) && negb reaches) mutators) exempt = true.
+Proof. exact exemptions_all_used_lemma. Qed.
+
+Example mutators_nontrivial : (40 <= length mutators)%nat.
+Proof. exact mutators_nontrivial_lemma. Qed.
 
 (* ===== the full statement, without (H4), is false of the faithful model =====
    A widget (2) that shows child 0 when narrow and children 0 and 1 when wide; child 1 renders
@@ -159,3 +191,12 @@ Proof. exact stale_w. Qed.
 Example same_history_all_cacheable :
   option_map (fun r => c_content (fst r)) (crender (list Z) body_w (fun _ => true) 5 (run_w (fun _ => true)) 3 16) = Some [0; 0; 1; 1].
 Proof. exact not_stale_when_cacheable. Qed.
+
+(* the collector may free a canvas that a cached canvas still displays *)
+Example collecting_a_displayed_child_is_harmless :
+  let st := run (list Z) body_w rbody_w rows_w (fun _ => true) (fun _ => true) 5 init ops_gc in
+  (length (heap st), map fst (widgets (cc st)),
+   option_map (fun r => c_content (fst r)) (crender (list Z) body_w (fun _ => true) 5 st 3 16),
+   fresh (list Z) body_w (ver st) 5 3 16)
+  = (3%nat, [0], Some [0; 0; 1; 1], Some [0; 0; 1; 1]).
+Proof. exact collect_displayed_child. Qed.
